@@ -180,7 +180,7 @@ def oracle_fit(ctx, thorough, forced=None):
         return f'{type(reg).__name__}: true H-infinity norm {norm:.6f} exceeds the reported gamma_ {gamma:.6f}', case, None
     log = reg.objective_log_
     for a, b in zip(log, log[1:]):
-        if b > a + 1e-6 * max(1.0, abs(a)):
+        if b > a + 1e-4 * max(1.0, abs(a)):
             return f'{type(reg).__name__}: logged objective increases from {a} to {b}', case, None
     return None, case, reg.stop_reason_
 
